@@ -1,19 +1,24 @@
 #!/bin/bash
-# Equivalent-rewrite selftest: rename every parameter, receiver, named result and local variable of the
-# whole module (type-resolved, `checker/cmd/renameparams`) in a scratch worktree and run all 58 quick checks
-# against it; every verdict must be the same as on the unchanged tree (exit 0). Not registered in MANIFEST.
-# usage: selftest/rename_test.sh <scratch-worktree>
+# Equivalent-rewrite selftest. In a scratch worktree, rewrite the whole module with checker/cmd/renameparams
+# (type-resolved, go/packages) and run all 58 quick checks against the result; every verdict must be the same as
+# on the unchanged tree (exit 0). Variants (all rename every parameter and receiver to <name>_r):
+#   locals   also every local variable and named result
+#   swapif   every `if c {A} else {B}` becomes `if !(c) {B} else {A}`
+#   swapcmp  every comparison with side-effect-free operands is mirrored (`a < b` -> `b > a`, `err != nil` -> `nil != err`)
+# Not registered in MANIFEST (dev aid; needs a scratch worktree).
+# usage: selftest/rename_test.sh <scratch-worktree> [locals|swapif|swapcmp]
 set -u
-WT=${1:?scratch worktree}
+WT=${1:?scratch worktree}; MODE=${2:-locals}
 export PATH=/opt/veriftools/go1.26.8/bin:$PATH GOTOOLCHAIN=local GOPROXY=off GOSUMDB=off GOWORK=off
 (cd /verif/checker && GOFLAGS=-mod=vendor go build -o /tmp/renameparams ./cmd/renameparams) || exit 2
 git -C "$WT" checkout -q -- . || exit 2
-(cd "$WT" && LOCALS=1 GOFLAGS=-mod=mod /tmp/renameparams "$WT" ./... && GOFLAGS=-mod=mod go build ./...) || exit 2
+case $MODE in locals) export LOCALS=1;; swapif) export SWAPIF=1;; swapcmp) export SWAPCMP=1;; esac
+(cd "$WT" && GOFLAGS=-mod=mod /tmp/renameparams "$WT" ./... && GOFLAGS=-mod=mod go build ./...) || exit 2
 bad=0
 for i in $(seq -w 1 58); do
   r=$(VERIF_REPO="$WT" VERIF_EVIDENCE=/tmp/ev_rename /verif/run.sh C$i quick 2>&1); e=$?
   [ $e != 0 ] && { bad=1; echo "C$i exit=$e"; echo "$r" | grep -v '^KNOWN' | sed -n 1,4p | cut -c1-300; }
 done
 git -C "$WT" checkout -q -- .
-[ $bad = 0 ] && echo "rename test: all 58 checks silent"
+[ $bad = 0 ] && echo "rewrite test ($MODE): all 58 checks silent"
 exit $bad
